@@ -1,19 +1,26 @@
 """C13 - JPEG destination buffer contract and worst-case size."""
 ID = "C13"
 VARIANTS = ["san", "simd"]
+HARNESS_FLAGS = "-DC13_WRAP -Wl,--wrap=malloc -Wl,--wrap=free"
 RULE = ("dest ops: client write sequences (byte-wise and direct-block) against both in-memory destination managers with "
         "initial capacities NULL/0/1/2/511..513/4095..4097/exact total +-1, reallocation on/off, reuse of the returned buffer; "
         "wcase ops: real compressions (lossy/lossless, 8/12/16-bit, noise/flat/alternating/worst-difference content) into a "
         "buffer of exactly tj3JPEGBufSize() with NOREALLOC, capacity sweep around the real size, tiny/exact/reused buffers with "
-        "reallocation; class = op kind + outcome")
+        "reallocation; aba ops: the caller frees the buffer of the previous call and allocates a smaller one which the allocator (a one-slot "
+        "allocator linked under malloc/free) places at the same address, then compresses with the true capacity - nothing may be stored "
+        "beyond it (canary); class = op kind + outcome")
 TRUSTED = ["Model.Dest is a hand model of jdatadst-tj.c / jdatadst.c over an abstract heap; tied by the dest op (free_in_buffer, growth count, size, content hash after every step)"]
-ASSUMPTIONS = ["a caller that hands back the pointer returned by the previous call has not freed/reallocated it in between (API contract)"]
+ASSUMPTIONS = ["the model identifies a buffer with its address, as jdatadst-tj.c does: 'reuse keeps the true capacity' is proved for a caller that hands back the "
+               "very buffer of the previous call; the history in which the caller has freed that buffer and a new, smaller one sits at the same address is "
+               "outside the model and is run on the real code by the aba op (known finding D38)"]
 
 
 def classify(op, R):
     p = op.split(" ")
     if p[0] == "dest":
         return "dest:%s:%s:%s" % (p[1], p[2], "err" if "err" in R else "ok")
+    if p[0] == "aba":
+        return "aba:d%s:%s" % (p[5], " ".join(R.split(" ")[:6]))
     if p[0] == "wcase":
         return "wcase:%s:%s:%s" % (p[1], p[2], R.split(" ")[0])
     return p[0]
@@ -77,6 +84,9 @@ def gen_ops(rng, tier):
         rst = rng.choice([0, 0, 0, 1, 2])
         ops.append("wcase prec=%d lossless=%d %d %d %d %d %d %d %d %d %d %d" % (
             prec, int(lossless), w, h, ss, q, kind, rng.randrange(1 << 30), opt, prog, arith, rst))
+    # the allocator returns the address of a buffer the caller has freed (D38)
+    for i in range(40 if big else 8):
+        ops.append("aba %d %d %d %d %d" % (rng.choice([16, 24, 33, 48]), rng.choice([16, 24, 31]), rng.choice([100, 95, 75]), rng.randrange(1 << 30), rng.choice([0, 1, 1, 2, 17, 200])))
     # D3 witness classes (known finding): 16-bit lossless, worst-case differences / noise
     ops.append("wcase prec=16 lossless=1 400 400 0 100 0 5 0 0 0 0")
     ops.append("wcase prec=15 lossless=1 64 64 0 100 2 7 0 0 0 0")
